@@ -434,6 +434,12 @@ class Connection(ExportImport):
                 del obj._p_oid
                 if obj._p_changed:
                     obj._p_changed = False
+            elif oid in self._creating:
+                # A new object that was explicitly added and has already
+                # been stored by the commit that is failing.  It is
+                # disowned by _invalidate_creating(); it must keep its
+                # state, which cannot be loaded from anywhere.
+                pass
             else:
                 # Note: If we invalidate a non-ghostifiable object
                 # (i.e. a persistent class), the object will
